@@ -81,6 +81,15 @@ func NewMemConsensus(id peer.ID, shared *Shared) *MemConsensus {
 	return &MemConsensus{ID: id, S: shared, readyCh: ch}
 }
 
+// NewMemConsensusNotReady is NewMemConsensus, but Ready() only fires once
+// MarkReady is called.
+func NewMemConsensusNotReady(id peer.ID, shared *Shared) *MemConsensus {
+	return &MemConsensus{ID: id, S: shared, readyCh: make(chan struct{})}
+}
+
+// MarkReady signals consensus readiness.
+func (m *MemConsensus) MarkReady() { close(m.readyCh) }
+
 func (m *MemConsensus) SetClient(c *rpc.Client)               { m.rpcClient = c }
 func (m *MemConsensus) Shutdown(context.Context) error        { return nil }
 func (m *MemConsensus) Ready(context.Context) <-chan struct{} { return m.readyCh }
